@@ -492,6 +492,9 @@ func init() {
 	})
 	// ---- C04
 	register("c04", func(r *rng.R, tier string) []lcw.Input {
+		if r.Chance(1, 10) {
+			return []lcw.Input{stackedOverOverlay(r)}
+		}
 		if r.Chance(1, 6) {
 			return []lcw.Input{hiddenMounts(r, false)} // r5_c04.go
 		}
